@@ -79,7 +79,7 @@ impl Executor for BashScriptExecutor {
         testcases: &[&TestCase],
         context: &ExecutionContext,
     ) -> Result<Vec<Output>> {
-        let testcase = compile_testcase(testcases, context)?;
+        let (testcase, salt) = compile_testcase(testcases, context)?;
         let runner = SubprocessRunner(self.0.to_owned());
         let output = runner
             .run("script", &testcase, context)
@@ -94,8 +94,8 @@ impl Executor for BashScriptExecutor {
                     ExecutionTimeout::Total,
                     vec![Output {
                         exit_code: output.exit_code,
-                        stderr: remove_dividers_from_output(&output.stderr),
-                        stdout: remove_dividers_from_output(&output.stdout),
+                        stderr: remove_dividers_from_output(&output.stderr, &salt),
+                        stdout: remove_dividers_from_output(&output.stdout, &salt),
                     }],
                 ));
             }
@@ -112,6 +112,7 @@ impl Executor for BashScriptExecutor {
         let mut outputs = vec![];
         iterate_divided_output(
             "STDOUT",
+            &salt,
             (&output.stdout).into(),
             |_index: usize, out: &[u8], exit_code: i32| {
                 outputs.push(Output {
@@ -146,6 +147,7 @@ impl Executor for BashScriptExecutor {
         if testcase.config.output_stream != Some(OutputStreamControl::Combined) {
             iterate_divided_output(
                 "STDERR",
+                &salt,
                 (&output.stderr).into(),
                 |index: usize, out: &[u8], _exit_code: i32| {
                     if index >= outputs.len() {
@@ -171,7 +173,10 @@ impl Executor for BashScriptExecutor {
 /// Reduce a list of [`TestCase`] into a single one that has as it's shell
 /// expression a compiled bash script that executes all expressions and that
 /// uses a shared configuration
-fn compile_testcase(testcases: &[&TestCase], context: &ExecutionContext) -> Result<TestCase> {
+fn compile_testcase(
+    testcases: &[&TestCase],
+    context: &ExecutionContext,
+) -> Result<(TestCase, String)> {
     let mut config = TestCaseConfig::empty();
 
     // iterate all test cases and make sure that they have a consistent configuration
@@ -215,25 +220,29 @@ fn compile_testcase(testcases: &[&TestCase], context: &ExecutionContext) -> Resu
     }
 
     // create a bash script that executes all testcases
-    let script = compile_script(testcases, &config)?;
+    let (script, salt) = compile_script(testcases, &config)?;
 
     // the environment variables are already exported in the compiled script
     config.environment.clear();
 
-    Ok(TestCase {
-        title: "Test Script".into(),
-        shell_expression: script,
-        config,
-        ..Default::default()
-    })
+    Ok((
+        TestCase {
+            title: "Test Script".into(),
+            shell_expression: script,
+            config,
+            ..Default::default()
+        },
+        salt,
+    ))
 }
 
-/// Returns output stream that does not contain any line that starts with a divider prefix
-fn remove_dividers_from_output(output: &OutputStream) -> OutputStream {
+/// Returns output stream that does not contain any line that starts with a divider
+fn remove_dividers_from_output(output: &OutputStream, salt: &str) -> OutputStream {
+    let divider_start = salted_divider_prefix(salt);
     let text: &[u8] = &output.to_bytes();
     let mut updated = vec![];
     for line in text.split_at_newline() {
-        if line.starts_with(DIVIDER_PREFIX_BYTES) {
+        if line.starts_with(&divider_start) {
             continue;
         }
         updated.push(line);
@@ -242,7 +251,8 @@ fn remove_dividers_from_output(output: &OutputStream) -> OutputStream {
 }
 
 /// Compiles all shell expressions of a list of [`TestCase`]s into a single bash script
-fn compile_script(testcases: &[&TestCase], config: &TestCaseConfig) -> Result<String> {
+/// and returns it together with the random salt that identifies the dividers
+fn compile_script(testcases: &[&TestCase], config: &TestCaseConfig) -> Result<(String, String)> {
     use std::borrow::Cow;
 
     let mut expressions = vec![];
@@ -289,18 +299,24 @@ fn compile_script(testcases: &[&TestCase], config: &TestCaseConfig) -> Result<St
         }
     }
 
-    Ok(expressions.join("\n"))
+    Ok((expressions.join("\n"), salt))
 }
 
-fn iterate_divided_output<C>(name: &str, output: &[u8], mut callback: C) -> Result<()>
+fn iterate_divided_output<C>(name: &str, salt: &str, output: &[u8], mut callback: C) -> Result<()>
 where
     C: FnMut(usize, &[u8], i32) -> Result<()>,
 {
     let mut buffer = vec![];
     let mut expected_index = 0;
+    let divider_start = salted_divider_prefix(salt);
     for line in output.split_at_newline() {
-        let divider =
-            parse_divider_bytes(line).map_err(|err| ExecutionError::failed(expected_index, err))?;
+        // only lines that carry the salt of this execution are dividers, everything
+        // else - even if it looks like a divider - is output of the test
+        let divider = if contains_bytes(line, &divider_start) {
+            parse_divider_bytes(line).map_err(|err| ExecutionError::failed(expected_index, err))?
+        } else {
+            DividerSearch::NotFound
+        };
         match divider {
             DividerSearch::NotFound => buffer.push(line.to_vec()),
             DividerSearch::Found {
@@ -335,6 +351,17 @@ where
         }
     }
     Ok(())
+}
+
+/// The start of every divider line that was generated with the given salt
+fn salted_divider_prefix(salt: &str) -> Vec<u8> {
+    format!("{}{}::", DIVIDER_PREFIX, salt).into_bytes()
+}
+
+fn contains_bytes(haystack: &[u8], needle: &[u8]) -> bool {
+    haystack
+        .windows(needle.len())
+        .any(|window| window == needle)
 }
 
 /// Create a new divider that separated outputs of multiple executions
